@@ -275,6 +275,12 @@ func (x *Exec) execFieldAddr(p *Path, v *ssa.FieldAddr) SV {
 	base := x.val(p, v.X)
 	st := v.X.Type().(*types.Pointer).Elem().Underlying().(*types.Struct)
 	fname := st.Field(v.Field).Name()
+	if nm := ptrToNamed(v.X.Type()); (nm == "list" || nm == "object") && fname != "val" && fname != "ptr" {
+		// a field the model does not know (a cache, a counter, a flag added to the struct): the contract of this
+		// function no longer binds; the bounded oracle decides
+		x.errorf("%s: unsupported field %s.%s at %s (the heap model knows val and ptr)", x.cur.ct.Func, nm, fname, x.pos(v))
+		return SV{K: KOpaque}
+	}
 	switch ptrToNamed(v.X.Type()) {
 	case "list":
 		x.guard(p, fmt.Sprintf("(not (= %s 0))", base.T), "nil-deref", v)
